@@ -3,7 +3,7 @@ import DoitModel.Model.Basic
 
 Executable model of what `doit run [--single] ARGS` selects and which tasks the run then considers.
 
-* `glob`            — `fnmatch.fnmatch` restricted to `*`, `?` and literal characters;
+* `glob`            — `fnmatch.fnmatch` on POSIX: `*`, `?`, bracket classes as `fnmatch.translate` of CPython 3.12 reads them, literals;
 * `prepare`         — `TaskControl.__init__`: `wild_dep` expansion (`_get_wild_tasks`) and the implicit task_dep a
                       `file_dep` on another task's target creates (`set_implicit_deps` / `add_implicit_task_dep`);
 * `scan`/`dropOpts` — how much of the remaining argv the parser of a task with `params` consumes
@@ -24,21 +24,102 @@ namespace DoitModel.Sel
 
 abbrev Tok := List Char
 
-/-! ## fnmatch restricted to `*`, `?`, literals -/
+/-! ## fnmatch: `*`, `?`, bracket classes, literals (CPython 3.12 `fnmatch.translate`, POSIX: `normcase` is the identity) -/
 
 /-- `f` holds of some suffix of the string -/
 def anySuffix (f : Tok → Bool) : Tok → Bool
   | [] => f []
   | c :: s => f (c :: s) || anySuffix f s
 
-/-- `glob pattern name` -/
-def glob : Tok → Tok → Bool
-  | [], s => s.isEmpty
-  | c :: p, s =>
-    if c = '*' then anySuffix (glob p) s
+/-- the class ends at the next `]` (`pre`: what was skipped before the search) -/
+def closeAt (pre q : Tok) : Option (Tok × Tok) :=
+  if q.contains ']' then some (pre ++ q.takeWhile (· != ']'), (q.dropWhile (· != ']')).tail) else none
+
+/-- a `]` right at the start (after the optional `!`) does not close the class -/
+def afterBang (pre q : Tok) : Option (Tok × Tok) :=
+  match q with
+  | ']' :: q' => closeAt (pre ++ [']']) q'
+  | _ => closeAt pre q
+
+/-- the text after a `[`: where `translate` finds the end of the class.  An optional `!` and then an optional `]` are
+    skipped, the class ends at the next `]`; `(body, rest)`: the characters between the brackets and what follows the
+    closing one.  `none`: there is no closing `]` — the `[` is a literal and the scan goes on right after it. -/
+def splitClass (p : Tok) : Option (Tok × Tok) :=
+  match p with
+  | '!' :: q => afterBang ['!'] q
+  | _ => afterBang [] p
+
+/-- `translate` cuts the class body at the hyphens that make ranges: the search starts after the first character
+    (after the second when the body starts with `!`) and, after a hyphen, skips the range end and one more character
+    (`k = k+3`).  `skip`: characters still taken without looking; `cur`: the chunk being collected. -/
+def chunksGo : Nat → Tok → Tok → List Tok
+  | _, cur, [] => [cur]
+  | skip + 1, cur, c :: rest => chunksGo skip (cur ++ [c]) rest
+  | 0, cur, c :: rest => if c = '-' then cur :: chunksGo 2 [] rest else chunksGo 0 (cur ++ [c]) rest
+
+/-- `if chunk: chunks.append(chunk) else: chunks[-1] += '-'`: a hyphen right before the closing bracket is a literal -/
+def fixLast : List Tok → List Tok
+  | [] => []
+  | [a] => [a]
+  | a :: b :: rest => if b = [] ∧ rest = [] then [a ++ ['-']] else a :: fixLast (b :: rest)
+
+/-- "Remove empty ranges": from the right, a range whose start is greater than its end disappears with both ends -/
+def mergeR : List Tok → List Tok
+  | [] => []
+  | a :: rest =>
+    match mergeR rest with
+    | [] => [a]
+    | b :: more =>
+      match a.getLast?, b.head? with
+      | some x, some y => if x > y then (a.dropLast ++ b.tail) :: more else a :: b :: more
+      | _, _ => a :: b :: more
+
+/-- the ranges between consecutive chunks -/
+def inRanges (d : Char) : List Tok → Bool
+  | a :: b :: more =>
+    (match a.getLast?, b.head? with
+      | some x, some y => decide (x ≤ d) && decide (d ≤ y)
+      | _, _ => false) || inRanges d (b :: more)
+  | _ => false
+
+/-- the regular-expression class `[c0-c1-…]` (hyphens and backslashes inside a chunk escaped): every character of a
+    chunk, and everything between the last character of a chunk and the first of the next -/
+def inChunks (chs : List Tok) (d : Char) : Bool := chs.any (·.contains d) || inRanges d chs
+
+/-- does the character match the class with this body?  Without a hyphen: the characters of the body, negated by a
+    leading `!`.  With one: the chunks after removal of the empty ranges; nothing left = never (`[b-a]`); `!` left =
+    any character (`[!b-a]`, and also `[b-a!]`: the test is made on the text that is left); a leading `!` left =
+    negation — when the `!` stood alone in its chunk the hyphen after it becomes a literal (`[b-a!-z]` is `[^-z]`). -/
+def inClass (body : Tok) (d : Char) : Bool :=
+  if body.contains '-' then
+    match mergeR (fixLast (chunksGo (if body.head? = some '!' then 2 else 1) [] body)) with
+    | [] => false
+    | ('!' :: c0) :: more =>
+      if c0 = [] then (if more = [] then true else !(d == '-' || inChunks more d))
+      else !(inChunks (c0 :: more) d)
+    | chs => inChunks chs d
+  else
+    match body with
+    | '!' :: m => !m.contains d
+    | m => m.contains d
+
+/-- `glob` with fuel (one unit per pattern character is enough: `glob`) -/
+def globF : Nat → Tok → Tok → Bool
+  | 0, _, _ => false
+  | _ + 1, [], s => s.isEmpty
+  | n + 1, c :: p, s =>
+    if c = '*' then anySuffix (globF n p) s
+    else if c = '[' then
+      match splitClass p, s with
+      | _, [] => false
+      | some (body, rest), d :: s' => inClass body d && globF n rest s'
+      | none, d :: s' => d == '[' && globF n p s'
     else match s with
       | [] => false
-      | d :: s' => (c == '?' || c == d) && glob p s'
+      | d :: s' => (c == '?' || c == d) && globF n p s'
+
+/-- `glob pattern name`: `fnmatch.fnmatchcase(name, pattern)` -/
+def glob (p s : Tok) : Bool := globF (p.length + 1) p s
 
 def hasStar (a : Tok) : Bool := a.contains '*'
 
